@@ -21,8 +21,15 @@ PROP = "C03"
 FLAGS = ["q_strip_in_code", "q_block_comment_kept", "q_overlap_asym"]
 HEADER = ("From TL Require Import Lib.Base Lib.GenTypes Model.DryBase Model.DryPipe Gen.DryGen Model.Dry Model.DrySpec "
           "Model.DryRun Actual.DryActual.\n"
-          "Definition L := Build_aline.\nDefinition F := Build_afile.\nDefinition V := Build_viol.\n"
-          "Definition RS (f s e : nat) (ls : list string) : row := Build_row f s e (join nl ls).\n")
+          "From Coq Require Import NArith.\n"
+          "Definition L := Build_aline.\nDefinition F := Build_afile.\nDefinition n := N.to_nat.\n"
+          # numbers are sent in binary (N): a unary nat literal costs its value in term size at type-checking time
+          "Definition V (f l c cnt occ : N) (refs : list (N * N * N)) : viol :=\n"
+          "  Build_viol (n f) (n l) (n c) (n cnt) (n occ) (map (fun r => let '(a, b, d) := r in (n a, n b, n d)) refs).\n"
+          "Definition RIn (tbl : list string) (f s e : N) (ids : list N) : row := RI tbl (n f) (n s) (n e) (map n ids).\n"
+          "Definition j1 q exact (W k : N) := judge1 q exact (n W) (n k).\n"
+          "Definition j2 q exact (W k : N) := judge2 q exact (n W) (n k).\n"
+          "Open Scope N_scope.\n")
 JUDGE1_BITS, JUDGE2_BITS = 10, 6
 MSG_RE = re.compile(r"^Duplicate code \((\d+) lines, (\d+) occurrences\)(?:\. Also found in: (.*))?$", re.S)
 RULE_ID = "dry.duplicate-code"
@@ -30,7 +37,7 @@ CORPUS = Path(__file__).resolve().parent.parent.parent / "corpus" / PROP
 
 
 # ------------------------------------------------------------------ cases
-def gen_cases(seed: int, n_ord: int, n_flt: int):
+def gen_cases(seed: int, n_ord: int, n_flt: int, tempfile_share: float = 0.0):
     cases = []
     for i in range(n_ord + n_flt):
         r = rng_for(seed, PROP, i)
@@ -42,7 +49,10 @@ def gen_cases(seed: int, n_ord: int, n_flt: int):
             via = "cli"
         elif x < 0.35:
             via = "dir"
-        cases.append({"i": i, "stream": stream, "via": via, "order_seed": r.randint(0, 10 ** 6), **proj})
+        case = {"i": i, "stream": stream, "via": via, "order_seed": r.randint(0, 10 ** 6), **proj}
+        if r.random() < tempfile_share:
+            case["storage_mode"] = "tempfile"
+        cases.append(case)
     return cases
 
 
@@ -175,7 +185,11 @@ def run_impl(case):
 
 # ------------------------------------------------------------------ Coq encoding
 def cs(s: str) -> str:
-    return coq.coq_string(s)
+    """Coq string literal; bytes outside printable ASCII through bytes_to_string (numbers are N in the case files)"""
+    b = s.encode("utf-8")
+    if all(32 <= c < 127 for c in b):
+        return '"' + s.replace('"', '""') + '"'
+    return "(bytes_to_string (map n [" + ";".join(str(c) for c in b) + "]))"
 
 
 def coq_line(l) -> str:
@@ -195,7 +209,11 @@ def coq_viol(t) -> str:
 
 def coq_case(case, impl, phase: int) -> str:
     """stored rows are sent compressed: snippet lines as indices into a table of the distinct lines"""
-    viols = coq.coq_list([f"({coq_viol(t)}, {cs(t[6])})" for t in impl["viols"]])
+    viols = coq.coq_list([coq_viol(t) for t in impl["viols"]])
+    # raw message texts are costly to type-check: a sample per case (first 4, the 4 with most locations)
+    vs = impl["viols"]
+    pick = sorted(set(list(range(min(4, len(vs)))) + sorted(range(len(vs)), key=lambda i: -len(vs[i][5]))[:4]))
+    msgs = coq.coq_list([f"({coq_viol(vs[i])}, {cs(vs[i][6])})" for i in pick])
     tbl: dict[str, int] = {}
     if impl["rows"] is None:
         rows = "None"
@@ -203,14 +221,14 @@ def coq_case(case, impl, phase: int) -> str:
         items = []
         for a, b, c, s in impl["rows"]:
             ids = [tbl.setdefault(x, len(tbl)) for x in s.split(chr(10))]
-            items.append(f"RI tbl {a} {b} {c} {coq.coq_list([str(i) for i in ids])}")
+            items.append(f"RIn tbl {a} {b} {c} {coq.coq_list([str(i) for i in ids])}")
         rows = "(Some " + coq.coq_list(items) + ")"
     exact = "true" if case["stream"] == "ord" else "false"
     head = f"let tbl := {coq.coq_list([cs(x) for x in tbl])} in "
     if phase == 1:
-        return (head + f"judge1 dry_actual {exact} {case['W']} {case['k']} {coq_files(case['files'])} "
-                f"{coq.coq_list([cs(p) for p in impl['paths']])} {viols} {rows}")
-    return head + f"judge2 dry_actual {exact} {case['W']} {case['k']} {coq_files(case['files'])} {viols} {rows}"
+        return (head + f"j1 dry_actual {exact} {case['W']} {case['k']} {coq_files(case['files'])} "
+                f"{coq.coq_list([cs(p) for p in impl['paths']])} {viols} {msgs} {rows}")
+    return head + f"j2 dry_actual {exact} {case['W']} {case['k']} {coq_files(case['files'])} {viols} {rows}"
 
 
 def eval_shards_robust(workdir: Path, shards: list[str], procs: int = 8, timeout: int = 900) -> list[list]:
@@ -304,14 +322,29 @@ def _valid(f) -> bool:
         return False
 
 
+def _mirror_unexplained(case, impl) -> list:
+    """Python-mirror verdict (used while shrinking, and to name a failing input when the Coq model cannot be
+    built at all): clauses the implementation's output violates, unless the listed defects explain the failure"""
+    rep = sorted((t[0], t[1], t[2], t[3], t[4], [tuple(r) for r in t[5]]) for t in impl["viols"])
+    W, k, files = case["W"], case["k"], case["files"]
+    exact = case["stream"] == "ord"
+    rows = None if exact or impl["rows"] is None else [tuple(r) for r in impl["rows"]]
+    bad = pm.spec_check(W, k, files, rep, complete=exact, rows=rows)
+    if not bad:
+        return []
+    mrows = pm.all_rows(pm.ACTUAL, W, files)
+    in_class = (any(l[0] == "C" and ("#" in l[2] or "//" in l[2]) for f in files for l in f["lines"])
+                or any(l[0] == "C" and l[3] is not None and l[3][0] == "B" for f in files for l in f["lines"])
+                or any(r[2] - r[1] + 1 != W for r in mrows))
+    if exact:
+        explained = rep == pm.model(pm.ACTUAL, W, k, files) and not pm.spec_check(W, k, files, pm.model(pm.IDEAL, W, k, files)) and in_class
+    else:
+        explained = rows is not None and rep == pm.report(pm.ACTUAL, k, rows) and in_class
+    return [] if explained else bad
+
+
 def _py_fails(case) -> bool:
-    """mirror-level: the implementation's output violates some clause, or differs from the mirror model"""
-    impl = run_impl({**case, "via": "api"})
-    rep = [tuple(t[:5]) + (tuple(map(tuple, t[5])),) for t in impl["viols"]]
-    rep = [(a, b, c, d, e, list(f)) for a, b, c, d, e, f in rep]
-    bad = pm.spec_check(case["W"], case["k"], case["files"], rep, complete=(case["stream"] == "ord"),
-                        rows=None if case["stream"] == "ord" else [tuple(r) for r in (impl["rows"] or [])] or None)
-    return bool(bad)
+    return bool(_mirror_unexplained(case, run_impl({**case, "via": "api"})))
 
 
 # ------------------------------------------------------------------ main
@@ -344,7 +377,7 @@ def run(tier: str, seed: int, replay: str | None = None) -> int:
         v = json.loads(Path(replay).read_text())["violation"]
         cases = [v["case"]] if "case" in v else []
     else:
-        cases = corpus_cases() + gen_cases(seed, n_ord, n_flt)
+        cases = corpus_cases() + gen_cases(seed, n_ord, n_flt, 0.0 if tier == "quick" else 0.3)
     impls = pool_map(run_impl, cases, procs=8)
     with scratch_dir("tv-c03-coq-") as wd:
         try:
@@ -366,6 +399,19 @@ def run(tier: str, seed: int, replay: str | None = None) -> int:
             b2 = b2 if b2 is not None else [True, b1[6], True, True, True, True]
             verdicts.append(b1[:6] + b2 + b1[7:10])
     chk.extra_cov["phase2_cases"] = sum(1 for b in v2 if b is not None)
+    if cases and all(b is None for b in verdicts):
+        # the Coq model could not be evaluated (a generated item failed closed / the model no longer compiles): the run
+        # fails anyway; use the Python mirror only to NAME a failing input for the replay
+        for case, impl in zip(cases, impls):
+            if impl["failures"] or impl["junk"]:
+                continue
+            bad = _mirror_unexplained(case, impl)
+            if bad:
+                chk.violation({"reason": "duplicate-code report violates: " + ", ".join(bad) + " (verdict of the Python mirror of the model: "
+                                         "the Coq model could not be built/evaluated, see broken_obligations)",
+                               "case": {k: case[k] for k in ("W", "k", "stream", "via", "order_seed", "storage_mode", "files") if k in case},
+                               "impl": [t[:7] for t in impl["viols"]]})
+                break
     cands_all = None
     for case, impl, bits in zip(cases, impls, verdicts):
         nviol = len(impl["viols"])
@@ -380,7 +426,8 @@ def run(tier: str, seed: int, replay: str | None = None) -> int:
         chk.sample({"W": case["W"], "k": case["k"], "stream": case["stream"],
                     "files": {f["name"]: pm.render_file(f)[:400] for f in case["files"][:3]},
                     "impl": [t[6][:160] for t in impl["viols"][:4]]}, 3)
-        slim = {k: case[k] for k in ("W", "k", "stream", "via", "order_seed", "files")}
+        slim = {k: case[k] for k in ("W", "k", "stream", "via", "order_seed", "storage_mode", "files") if k in case}
+        chk.dist("storage:" + case.get("storage_mode", "memory"))
         if impl["failures"]:
             chk.violation({"reason": "a rule failed internally (swallowed exception) during the run", "failures": impl["failures"][:3], "case": slim})
             continue
